@@ -136,7 +136,8 @@ class PduIgnoredForDestReason(enum.IntEnum):
     """For the acknowledged mode, the first packet that was received with
     no metadata received previously was not a File Data PDU or EOF PDU."""
     METADATA_FILE_NAME_NOT_DECODABLE = 3
-    """A file name of the Metadata PDU is not valid UTF-8 and can not be used as a path."""
+    """A file name of the Metadata PDU is not valid UTF-8 or contains a NUL byte and can not be
+    used as a path."""
 
 
 class PduIgnoredForDest(Exception):
